@@ -109,9 +109,11 @@ func isNilableType(t types.Type) bool {
 	if t == nil {
 		return false
 	}
-	switch t.Underlying().(type) {
+	switch u := t.Underlying().(type) {
 	case *types.Pointer, *types.Interface, *types.Map:
 		return true
+	case *types.Basic:
+		return u.Kind() == types.UntypedNil // the literal nil itself
 	}
 	return false
 }
@@ -486,6 +488,40 @@ func (c *p5) errNilAtom(fn *Func, a *Atom, errVar types.Object) bool {
 func (c *p5) okVarsFor(fn *Func, e ast.Expr, obj types.Object, path string) []types.Object {
 	info := fn.Info()
 	var out []types.Object
+	// a parameter handed the value of a comma-ok lookup together with that lookup's ok flag
+	// (f(v, ok) after v, ok := m[k]): the flag parameter vouches for the value parameter, if
+	// every in-module call site passes the pair that way
+	if obj != nil && fn.isParam(obj) && fn.Obj != nil && len(fn.Assignments(obj)) == 0 {
+		sig, _ := fn.Obj.Type().(*types.Signature)
+		sites := c.callers[fn.Obj]
+		if sig != nil && len(sites) > 0 {
+			cand := map[int]int{}
+			for _, cs := range sites {
+				arg := actualFor(fn, obj, cs)
+				aid, ok := ast.Unparen(arg).(*ast.Ident)
+				if arg == nil || !ok {
+					continue
+				}
+				cinfo := cs.fn.Info()
+				ao := cinfo.ObjectOf(aid)
+				for _, ov := range c.okVarsFor(cs.fn, aid, ao, cs.fn.Canon(aid)) {
+					for q, qa := range cs.call.Args {
+						if qid, ok := ast.Unparen(qa).(*ast.Ident); ok && cinfo.ObjectOf(qid) == ov && q < sig.Params().Len() {
+							cand[q]++
+						}
+					}
+				}
+			}
+			for q, n := range cand {
+				if n == len(sites) && len(fn.Assignments(sig.Params().At(q))) == 0 {
+					out = append(out, sig.Params().At(q))
+				}
+			}
+			if len(out) > 0 {
+				return out
+			}
+		}
+	}
 	if obj != nil {
 		for _, a := range fn.Assignments(obj) {
 			s, ok := a.(*ast.AssignStmt)
